@@ -5,6 +5,7 @@ import SaramaVerif.Model.ProduceSet
   offsets handleSuccess reports).
 
   conf ver v1 v2 v21 codec idem mrs mmb fMsgs fBytes fFreq maxMsgs     -> ok   (resets the set)
+  topics lens | level n | newset                                    -> ok   (names / compression level: bytes only; newset: fresh produce set)
   add now id topic part klen vlen hdrs ts seq                       -> ok=<0|1> bc=
   batch topic part base                                             -> kind= rv= magic= codec= lod= wts= recs=off:id:ts;… log=pos:id,…
         ts of a record is printed only where the application supplied one ("*" otherwise, "-" = format has none)
@@ -74,6 +75,9 @@ def step (st : St) (t : List String) : St × String :=
   | ["conf", _ver, v1, v2, v21, codec, idem, mrs, mmb, fm, fb, ff, mx] =>
       ({ c := ⟨b! v1, b! v2, b! v21, int! codec, b! idem, int! mrs, int! mmb, int! fm, int! fb, int! ff, int! mx⟩,
          s := State.empty }, "ok")
+  | ["topics", _] => (st, "ok")
+  | ["level", _] => (st, "ok")
+  | ["newset"] => ({ st with s := State.empty }, "ok")
   | ["add", now, id, topic, part, klen, vlen, hdrs, ts, seq] =>
       let m := mkMsg id topic part klen vlen hdrs ts seq
       let ok := addOk st.c st.s m
